@@ -1103,6 +1103,11 @@ func schedPart(rng *vh.Rand, thorough bool) {
 		{"result||cancel||cancel", []op{T7}, []op{E7, C0, C0}, []op{D0}},
 		{"task||task", nil, []op{T7, T7}, []op{R7, D0, D1}},
 		{"task||task||result", nil, []op{T7, T7, R7}, []op{D0, D1}},
+		// the displaced job (both Task calls passed the check before either inserted) is cancelled:
+		// the LIVE job registered under the number must stay in the table and get its result
+		{"task||task;cancel-displaced", nil, []op{T7, T7}, []op{C0, R7, D0, D1}},
+		{"task||task;cancel-live", nil, []op{T7, T7}, []op{C1, R7, D0, D1}},
+		{"task||task||cancel", nil, []op{T7, T7, C0}, []op{R7, D0, D1}},
 		{"task||task-allocated", nil, []op{T0, T0}, []op{D0, D1}},
 		{"task||cancel||result", []op{T7}, []op{T7, C0, R7}, []op{R7, D0, D1}},
 		{"result||cancel||wait||isdone", []op{T7}, []op{R7, C0, W0, D0}, nil},
@@ -1421,11 +1426,14 @@ func readerRound(r *vh.Rand, round int) *stressFail {
 type fragSpec struct {
 	Job, Group, Pos, Max int
 	Body                 string
-	Cancel               int `json:"cancel,omitempty"` // instead of a fragment: 1 = Cancel(job 10), 2 = Task(10) again
+	Err                  bool `json:"flag_error,omitempty"` // this fragment carries FlagError
+	Cancel               int  `json:"cancel,omitempty"` // instead of a fragment: 1 = Cancel(job 10), 2 = Task(10) again
 }
 
 var markRe = regexp.MustCompile(`<(\d+):`)
 
+// wantDone: job -> exact payload (clean scenarios; nil: only the weak oracle).  A job whose
+// fragments carry FlagError anywhere must end with Status error (4), otherwise completed (3).
 func fragScenario(name string, fr []fragSpec, wantDone map[int]string) {
 	out.Count("fragments", name, true)
 	s := c2.VerifC14SessionSync()
@@ -1467,6 +1475,9 @@ func fragScenario(name string, fr []fragSpec, wantDone map[int]string) {
 			n.Flags.SetGroup(uint16(f.Group))
 			n.Flags.SetLen(uint16(f.Max))
 			n.Flags.SetPosition(uint16(f.Pos))
+			if f.Err {
+				n.Flags |= com.FlagError
+			}
 			n.Write([]byte(f.Body))
 			c2.VerifC14Receive(s, n)
 			c2.VerifC14Drain(s)
@@ -1496,9 +1507,21 @@ func fragScenario(name string, fr []fragSpec, wantDone map[int]string) {
 	}
 	for id, j := range jobs {
 		want, should := wantDone[id]
+		anyErr := false
+		for _, f := range fr {
+			if f.Job == id && f.Err {
+				anyErr = true
+			}
+		}
 		switch {
 		case should && !j.IsDone():
 			fail(fmt.Sprintf("job %d did not complete although all its fragments arrived in order", id), "frag:not-completed")
+		case should && anyErr:
+			// an error result: the text is whatever ReadString makes of the payload; the Status is error
+			if int(j.Status) != 4 {
+				fail(fmt.Sprintf("job %d: a fragment of its result carries FlagError, final Status is %d (len(Error) %d), want 4 (error)", id, int(j.Status), len(j.Error)),
+					"frag:error-flag-lost")
+			}
 		case should && (j.Result == nil || string(j.Result.Payload()) != want || int(j.Status) != 3):
 			got := ""
 			if j.Result != nil {
@@ -1530,6 +1553,28 @@ func fragPart(rng *vh.Rand, thorough bool) {
 	fragScenario("two-groups-interleaved", []fragSpec{F(10, 1, 0, 2, "a"), F(11, 2, 0, 2, "x"), F(10, 1, 1, 2, "b"), F(11, 2, 1, 2, "y")},
 		map[int]string{10: "<10:a><10:b>", 11: "<11:x><11:y>"})
 	fragScenario("unknown-job-group", []fragSpec{F(12, 4, 0, 2, "a"), F(12, 4, 1, 2, "b")}, none)
+	// FlagError on none / all / only a later / only the first fragment of 2..4
+	for nf := 2; nf <= 4; nf++ {
+		for mode := 0; mode < 5; mode++ {
+			fs := make([]fragSpec, nf)
+			want := ""
+			for i := range fs {
+				fs[i] = F(10, 0x20+nf, i, nf, string(rune('a'+i)))
+				want += fs[i].Body
+				switch mode {
+				case 1:
+					fs[i].Err = true
+				case 2:
+					fs[i].Err = i == nf-1
+				case 3:
+					fs[i].Err = i == 0
+				case 4:
+					fs[i].Err = i == 1
+				}
+			}
+			fragScenario(fmt.Sprintf("error-flag-%d-fragments-mode-%d", nf, mode), fs, map[int]string{10: want})
+		}
+	}
 	// duplicates and a stale group: only "no foreign data / cancelled job untouched" is claimed
 	fragScenario("duplicate-fragment", []fragSpec{F(10, 5, 0, 2, "head"), F(10, 5, 0, 2, "head")}, nil)
 	fragScenario("stale-group-after-cancel", []fragSpec{F(10, 6, 0, 2, "head"), {Cancel: 1}, F(10, 6, 1, 2, "tail")}, nil)
